@@ -82,7 +82,7 @@ func canonReq(b []byte) string {
 var c15Hung int32
 
 func checkC15(c *hx.Ctx) {
-	c.Rule("(1) sequences of 1-6 transactions (valid batches written by the real OperationHandler, malformed anchor strings, missing / corrupt batch files (not gzip, truncated body, damaged body, missing trailer, JSON document followed by further bytes), unknown namespace, unknown protocol version, duplicate-carrying transactions through a stub provider, hand-made batch files listing one DID twice read by the real provider) delivered in 1-3 ledger notifications to the REAL Observer goroutine (race detector on) with ONE injected fault per run enumerated over every position (a third of the sequences name alternate sources - one down, one mirroring the local CAS - so that a local read failure must NOT cost the transaction): each CAS file of each transaction, the store Put of each transaction; oracle over the recorded store.Put calls: per processable transaction exactly one Put holding one operation per suffix (the first) stamped with the transaction's time, number, protocol version, canonical and equivalent references, nothing for a failed one, later transactions still processed, configured unpublished operations deleted; (2) DocumentHandler.ProcessOperation over sequences of valid and refused operations with an unpublished-store Put failure / writer Add failure at every call index: refused or failed operations leave no trace in the writer and in the unpublished store, also with the REAL batch.Writer (accepting, then stopped) in front of the real in-memory queue; non-trivial = run with a fault or a failing transaction; distinct = distinct (sequence, fault)")
+	c.Rule("(1) sequences of 1-6 transactions (valid batches written by the real OperationHandler, malformed anchor strings, missing / corrupt batch files (not gzip, truncated body, damaged body, missing trailer, JSON document followed by further bytes), unknown namespace, unknown protocol version, duplicate-carrying transactions through a stub provider, hand-made batch files listing one DID twice, or whose core index references creates without naming a provisional index file, read by the real provider) delivered in 1-3 ledger notifications to the REAL Observer goroutine (race detector on) with ONE injected fault per run enumerated over every position (a third of the sequences name alternate sources - one down, one mirroring the local CAS - so that a local read failure must NOT cost the transaction): each CAS file of each transaction, the store Put of each transaction; oracle over the recorded store.Put calls: per processable transaction exactly one Put holding one operation per suffix (the first) stamped with the transaction's time, number, protocol version, canonical and equivalent references, nothing for a failed one, later transactions still processed, configured unpublished operations deleted; (2) DocumentHandler.ProcessOperation over sequences of valid and refused operations with an unpublished-store Put failure / writer Add failure at every call index: refused or failed operations leave no trace in the writer and in the unpublished store (also a store configured for creates only and keyed by DID suffix: a failed enqueue of an update does not remove the pending create), also with the REAL batch.Writer (accepting, then stopped) in front of the real in-memory queue; non-trivial = run with a fault or a failing transaction; distinct = distinct (sequence, fault)")
 	c.Set("race_detector_enabled", raceEnabled)
 	p := c13Proto(ref.SHA256)
 	p2 := c13Proto(ref.SHA256)
@@ -123,7 +123,7 @@ func checkC15(c *hx.Ctx) {
 				t.CanonicalReference, t.EquivalentReferences = "", nil
 			}
 			pl := &txnPlan{Txn: t}
-			kind := hx.Pick(r, []string{"valid", "valid", "valid", "dup", "dup-in-files", "malformed-core-index", "malformed-anchor", "missing-file", "corrupt-file", "corrupt-file", "unknown-namespace", "unknown-version"})
+			kind := hx.Pick(r, []string{"valid", "valid", "valid", "dup", "dup-in-files", "creates-without-provisional-index", "malformed-core-index", "malformed-anchor", "missing-file", "corrupt-file", "corrupt-file", "unknown-namespace", "unknown-version"})
 			pl.Kind = kind
 			// a batch of 1-5 operations on distinct DIDs
 			var batch []*batchOp
@@ -152,6 +152,44 @@ func checkC15(c *hx.Ctx) {
 				uri := fmt.Sprintf("malformed-core-index-%d-%d", si, k)
 				cas.M[uri] = gz([]byte(body), gzip.DefaultCompression)
 				pl.Txn.AnchorString = "1." + uri
+				pl.Expect = nil
+			case "creates-without-provisional-index":
+				// hand-made batch files: the core index file references a create and a deactivate, carries a valid core proof
+				// file, but names no provisional index file (so no chunk file either); the anchor string counts both references.
+				// Only the deactivate could be assembled: the transaction is malformed and contributes nothing
+				var cre, dea *batchOp
+				for _, d := range r.Perm(len(bp)) {
+					for _, o := range bp[d] {
+						if usedOps[o.ID] || o.Until != 0 {
+							continue
+						}
+						if o.Type == "create" && cre == nil && (dea == nil || dea.Suffix != o.Suffix) {
+							cre = o
+						} else if o.Type == "deactivate" && dea == nil && (cre == nil || cre.Suffix != o.Suffix) {
+							dea = o
+						}
+					}
+				}
+				if cre == nil || dea == nil {
+					continue
+				}
+				usedOps[cre.ID], usedOps[dea.ID] = true, true
+				fs, err := newFileSet(p, []*batchOp{cre, dea})
+				if err != nil {
+					c.Inconclusive("cannot build file set: %v", err)
+					return
+				}
+				for role := range fs.Trees {
+					retarget(fs, role, fmt.Sprintf("noprov-%d-%d-%s", si, k, role))
+				}
+				if ci, ok := fs.Trees["core-index"].(map[string]interface{}); ok {
+					delete(ci, "provisionalIndexFileUri")
+				}
+				for uri, b64 := range fs.encode(nil) {
+					raw, _ := ref.UnB64(b64)
+					cas.M[uri] = raw
+				}
+				pl.Txn.AnchorString = "2." + fs.URI["core-index"]
 				pl.Expect = nil
 			case "dup-in-files":
 				// hand-made batch files (read by the REAL provider) whose provisional index lists one DID twice: the whole
@@ -642,8 +680,26 @@ func checkC15(c *hx.Ctx) {
 					return nil
 				}
 			}
-			dh := dochandler.New(hx.Namespace, nil, pc, w, processor.New("verif", store, pc), hx.NopMetrics{}, dochandler.WithUnpublishedOperationStore(unpub, allOpTypes))
-			var wantReqs []string
+			// a third of the sequences: the unpublished-operation store is configured for creates only and keyed by DID suffix
+			cfgTypes := allOpTypes
+			if si%3 == 2 {
+				cfgTypes = []operation.Type{operation.TypeCreate}
+				unpub.BySuffix = true
+			}
+			configured := func(req []byte) bool {
+				var t struct {
+					Type operation.Type `json:"type"`
+				}
+				_ = json.Unmarshal(req, &t)
+				for _, ct := range cfgTypes {
+					if ct == t.Type {
+						return true
+					}
+				}
+				return false
+			}
+			dh := dochandler.New(hx.Namespace, nil, pc, w, processor.New("verif", store, pc), hx.NopMetrics{}, dochandler.WithUnpublishedOperationStore(unpub, cfgTypes))
+			var wantReqs, wantUnpub []string
 			putAttempts, addAttempts := 0, 0
 			rest := restdoc.NewUpdateHandler(dh, pc, hx.NopMetrics{})
 			for _, s := range steps {
@@ -661,8 +717,10 @@ func checkC15(c *hx.Ctx) {
 				}
 				expectOK := s.ok
 				if s.ok {
-					putAttempts++
-					if putAttempts == fp.putFail {
+					if configured(s.req) {
+						putAttempts++
+					}
+					if configured(s.req) && putAttempts == fp.putFail {
 						expectOK = false
 					} else {
 						addAttempts++
@@ -678,6 +736,9 @@ func checkC15(c *hx.Ctx) {
 				}
 				if expectOK {
 					wantReqs = append(wantReqs, string(s.req))
+					if configured(s.req) {
+						wantUnpub = append(wantUnpub, string(s.req))
+					}
 				}
 			}
 			var gotW []string
@@ -695,13 +756,52 @@ func checkC15(c *hx.Ctx) {
 					map[string]interface{}{"steps": stepKinds(steps), "fault": fp.name})
 				return
 			}
-			if strings.Join(gotU, "\x00") != strings.Join(wantReqs, "\x00") {
-				c.Violation(fmt.Sprintf("C15 unpublished-operation store holds %d operations after the sequence, expected exactly the %d accepted ones: a refused or failed operation left a trace (fault plan %s)", len(gotU), len(wantReqs), fp.name),
+			if strings.Join(gotU, "\x00") != strings.Join(wantUnpub, "\x00") {
+				c.Violation(fmt.Sprintf("C15 unpublished-operation store (configured for %v) holds %d operations after the sequence, expected exactly the %d accepted ones of those types: a refused or failed operation left a trace or removed another one (fault plan %s)", cfgTypes, len(gotU), len(wantUnpub), fp.name),
 					map[string]interface{}{"steps": stepKinds(steps), "fault": fp.name, "store": gotU})
 				return
 			}
+			if si%3 == 2 {
+				c.Count("intake_runs_with_store_for_creates_only")
+			}
 			c.Count("intake_runs:" + strings.SplitN(fp.name, "-at-", 2)[0])
 			c.Distinct("intake|" + fp.name + fmt.Sprint(si))
+		}
+		// a pending create and a failed enqueue of an update for the same DID (store for creates only, keyed by DID suffix; the
+		// processor sees pending operations, so the update passes the handler's decoration): the pending create stays
+		if si%3 == 2 {
+			unpubC := &recUnpub{BySuffix: true}
+			wC := &hx.RecWriter{AddErr: func(call int) error {
+				if call == 2 {
+					return errors.New("injected enqueue failure")
+				}
+				return nil
+			}}
+			procC := processor.New("verif", hx.NewOpStore(), pc, processor.WithUnpublishedOperationStore(unpubC))
+			dhC := dochandler.New(hx.Namespace, nil, pc, wC, procC, hx.NopMetrics{}, dochandler.WithUnpublishedOperationStore(unpubC, []operation.Type{operation.TypeCreate}))
+			dX, crX, err := NewCDid(r.Split("pending-create"), ref.SHA256, []string{"P-256"}, 300, false, genPatches(r, 2, newIDPool(r)), nil, nil, "")
+			if err == nil {
+				dX.Suffix = suffixOf(crX.Req, ref.SHA256)
+				upX, uerr := dX.Update(genPatches(r, 2, newIDPool(r)), 0, 0)
+				c.Eval()
+				_, e1 := dhC.ProcessOperation(crX.Req, p.GenesisTime)
+				if e1 == nil && uerr == nil {
+					_, e2 := dhC.ProcessOperation(upX.Req, p.GenesisTime)
+					held := ""
+					unpubC.mu.Lock()
+					if len(unpubC.ops) == 1 {
+						held = string(unpubC.ops[0].OperationRequest)
+					}
+					n := len(unpubC.ops)
+					unpubC.mu.Unlock()
+					if e2 == nil || n != 1 || held != string(crX.Req) || wC.Len() != 1 {
+						c.Violation(fmt.Sprintf("C15 an update whose enqueueing failed (err=%v) changed what is pending for its DID: the unpublished-operation store (creates only, keyed by DID) holds %d entries, expected the accepted create alone; queue holds %d operations, expected 1", e2, n, wC.Len()),
+							map[string]interface{}{"create": string(crX.Req), "update": string(upX.Req)})
+						return
+					}
+					c.Count("failed_enqueue_after_pending_create")
+				}
+			}
 		}
 		// the REAL batch writer in front of the real in-memory queue: accepted while running, refused without any trace in queue
 		// and unpublished store once it has been stopped
@@ -747,11 +847,14 @@ func checkC15(c *hx.Ctx) {
 	})
 	c.Floor("corrupt_file_json_with_trailing_bytes", 5)
 	c.Floor("runs_with_alternate_sources", 50)
+	c.Floor("intake_runs_with_store_for_creates_only", 20)
+	c.Floor("failed_enqueue_after_pending_create", 5)
 	c.Floor("runs:no-fault", 20)
 	c.Floor("runs:cas-read", 50)
 	c.Floor("runs:store-put", 20)
 	c.Floor("txn_kind:dup", 10)
 	c.Floor("txn_kind:dup-in-files", 5)
+	c.Floor("txn_kind:creates-without-provisional-index", 5)
 	c.Floor("txn_kind:malformed-core-index", 5)
 	c.Floor("txn_kind:valid", 50)
 	c.Floor("intake_runs:unpublished-put-fails", 50)
